@@ -52,6 +52,10 @@ type gcase struct {
 	known  bool
 	class  string
 	rtok   string // abstract records + layout for the Lean driver (line formats; "" = none)
+	// reqtree only (gen_tree.go): path of the scanned file, the file system, expected list with locations
+	path    string
+	files   []gfile
+	expectL string
 }
 
 type format struct {
@@ -63,6 +67,8 @@ type format struct {
 	gen    func(r *rand.Rand) gcase                 // well-formed generator
 	bad    func(r *rand.Rand) gcase                 // malformed stream ((a) only; nil otherwise)
 	small  func(emit func(gcase))                   // thorough: every layout of every ≤3-record set ((a) only)
+	smallQuick bool                                 // run `small` in the quick tier too
+	locs   bool                                     // print Locations with every package
 }
 
 var formats []*format
@@ -74,6 +80,7 @@ func init() {
 		{name: "gemfile", path: "Gemfile.lock", ex: gemfilelock.New(), lineA: true, gen: genGemfile, bad: badGemfile, small: smallGemfile},
 		{name: "dpkg", path: "var/lib/dpkg/status", ex: dpkg.NewDefault(), lineA: true, gen: genDpkg, bad: badDpkg, small: smallDpkg},
 		{name: "requirements", path: "requirements.txt", ex: requirements.NewDefault(), lineA: true, gen: genReq, bad: badReq, small: smallReq},
+		{name: "reqtree", path: "requirements.txt", ex: requirements.NewDefault(), lineA: true, gen: genReqTree, bad: badReqTree, small: smallReqTree, smallQuick: true, locs: true},
 		{name: "plock", path: "package-lock.json", ex: packagelockjson.NewDefault(), decode: packagelockjson.VerifDecodeDoc, gen: genPlock},
 		{name: "composer", path: "composer.lock", ex: composerlock.New(), decode: composerlock.VerifDecodeDoc, gen: genComposer},
 		{name: "cargo", path: "Cargo.lock", ex: cargolock.New(), decode: cargolock.VerifDecodeDoc, gen: genCargo},
@@ -121,20 +128,34 @@ func listOf(ps []nv) string {
 
 // run executes the real Extract on the bytes, under recover, a 5 s watchdog (pk=hang: the goroutine is abandoned) and,
 // through memGuard, a heap bound (pk=oom: the stream ends there, what was produced so far is kept).
-func run(f *format, data []byte) string {
+func run(f *format, data []byte, at string, files []gfile) string {
 	done := make(chan string, 1)
+	if at == "" {
+		at = f.path
+	}
 	go func() {
 		done <- hx.Guard(func() string {
+			fsys := fstest.MapFS{}
+			for _, g := range files {
+				fsys[g.path] = &fstest.MapFile{Data: g.data, Mode: 0o644}
+			}
 			in := &filesystem.ScanInput{
-				FS:     fstest.MapFS{},
-				Path:   f.path,
+				FS:     fsys,
+				Path:   at,
 				Root:   "",
-				Info:   fakeInfo{name: f.path, size: int64(len(data))},
+				Info:   fakeInfo{name: at, size: int64(len(data))},
 				Reader: strings.NewReader(string(data)),
 			}
 			inv, err := f.ex.Extract(context.Background(), in)
 			if err != nil {
 				return "pk=err"
+			}
+			if f.locs {
+				ps := make([]nvl, 0, len(inv.Packages))
+				for _, p := range inv.Packages {
+					ps = append(ps, nvl{p.Name, p.Version, p.Locations})
+				}
+				return "pk=" + listOfL(ps)
 			}
 			ps := make([]nv, 0, len(inv.Packages))
 			for _, p := range inv.Packages {
@@ -191,6 +212,9 @@ func caseLine(f *format, c gcase) (string, bool) {
 	exp := "?"
 	if c.known {
 		exp = listOf(c.expect)
+		if f.locs {
+			exp = c.expectL
+		}
 	}
 	line := f.name + " " + h + " " + exp
 	if f.lineA && c.rtok != "" {
@@ -217,7 +241,7 @@ func emitCase(out *hx.Out, f *format, c gcase) {
 	line, ok := caseLine(f, c)
 	curCls.Store(f.name + "/" + c.class)
 	curCase.Store(line)
-	reply := run(f, c.data)
+	reply := run(f, c.data, c.path, c.files)
 	curCase.Store("")
 	if !ok {
 		// (b) format whose decoder failed: the implementation must fail too (or the harness decoder is out of step)
@@ -248,7 +272,25 @@ func replay(out *hx.Out, l string) {
 	// the case line is re-emitted VERBATIM (incl. the decoded document it carries) so that model and oracle see what was recorded
 	curCls.Store(f.name + "/replay")
 	curCase.Store(l)
-	reply := run(f, data)
+	at, files := "", []gfile(nil)
+	if f.locs { // T:<hex top path>:<reach> F:<hex path>:<hex content>:<R token> …
+		for _, tok := range t[3:] {
+			x := strings.SplitN(tok, ":", 4)
+			switch {
+			case x[0] == "T" && len(x) >= 2:
+				b, _ := hex.DecodeString(x[1])
+				at = string(b)
+			case x[0] == "F" && len(x) >= 3:
+				pb, _ := hex.DecodeString(x[1])
+				var cb []byte
+				if x[2] != "-" {
+					cb, _ = hex.DecodeString(x[2])
+				}
+				files = append(files, gfile{path: string(pb), data: cb})
+			}
+		}
+	}
+	reply := run(f, data, at, files)
 	curCase.Store("")
 	out.Emit(l, reply+" cls="+f.name+"/replay")
 }
@@ -277,9 +319,14 @@ func main() {
 	}
 	if o.Tier == "thorough" {
 		for _, f := range formats {
-			if f.small != nil {
+			if f.small != nil && !f.smallQuick {
 				f.small(func(c gcase) { emitCase(out, f, c) })
 			}
+		}
+	}
+	for _, f := range formats {
+		if f.small != nil && f.smallQuick {
+			f.small(func(c gcase) { emitCase(out, f, c) })
 		}
 	}
 	r := hx.Rng(o)
